@@ -8,6 +8,7 @@ import pandas
 import shapely
 
 from harness import util
+from harness.gen import c05_extra as H
 from harness.gen import datasets as G
 from harness.gen import geomspec as S
 from harness.props.c02 import arr_str, grids_spec, native
@@ -25,7 +26,12 @@ RULE = ('datasets of every convention with tagged variables (floats with missing
         'hits, boundary hits (shared edges and vertices) and misses; (c) extract_dataframe with error / drop / fill. '
         'The hit of every point given to the model is the brute-force lowest-index intersecting cell (GEOS), not '
         'emsarray\'s own lookup. Non-trivial: a request list with a repeat or non-monotone order, or a point list with '
-        'at least one miss and one hit; distinct by (recipe, request).')
+        'at least one miss and one hit; distinct by (recipe, request). (d) 40% of the datasets carry a history: one '
+        'selection through a random API, then 1-3 in-place edits of the dataset object (a variable re-assigned with new '
+        'values, a variable added on a grid, a variable deleted), made before (a) or between (a) and (b); every '
+        'selection after the edit is compared with the model and with the oracle on the dataset as it is at the time of '
+        'the call, and with a convention made afresh for the same content. The list of points goes through '
+        'extract_points or Convention.select_points.')
 TRUSTED = ['xarray vectorised isel, Dataset.merge(join=inner/outer), pandas DataFrame.to_xarray']
 ASSUMPTIONS = ['only data variables are compared; coordinate variables of the result are xarray bookkeeping',
                'a drop/fill request in which no point hits is refused by the code (nothing to select); modelled as an error']
@@ -76,14 +82,64 @@ def truth_hits(built, kept, pts):
 
 
 def examine(ctx, recipe, items) -> None:
-    from emsarray.operations import point_extraction
-    rng = ctx.rng
+    """One dataset object, one bound convention, and the whole sequence of calls of the check made on it.
+    With a `history` in the recipe the dataset is edited in place part-way through (gen/c05_extra.py): every
+    selection after the edit is judged against the dataset as it is when the call is made."""
     built = G.build(recipe)
     c = G.bind(built)
+    hist = recipe.get('history')
+    if hist:
+        warmed = H.warm_up(built, c, hist['warm'], native)
+        ops = '+'.join(e['op'] for e in hist['edits'])
+        ctx.count(f"history:{hist['at']}:warm={'no' if hist['warm'] == 'none' else 'yes'}:{ops}")
+        if warmed == 'done' or hist['at'] == 'mid':
+            ctx.nontrivial((str(recipe), 'history'))
+        if hist['at'] == 'start':
+            H.apply_edits(built, hist)
+            same_as_fresh(ctx, recipe, built, c)
+    examine_indexes(ctx, recipe, built, c, items)
+    if hist and hist['at'] == 'mid':
+        H.apply_edits(built, hist)
+        same_as_fresh(ctx, recipe, built, c)
+    examine_points(ctx, recipe, built, c, items)
+
+
+def same_as_fresh(ctx, recipe, built, c) -> None:
+    """Direct oracle for histories: "the values stored" are those of the dataset at the time of the call, so a
+    selection made through the long-lived convention of an edited dataset is the selection a convention made
+    just now for the same content gives (same variables, same order, same values, same types)."""
+    fresh = built.conv_class(built.ds.copy())
+    for kind, (_gdims, gshape) in built.grids.items():
+        if any(s == 0 for s in gshape):
+            continue
+        comps = [[s - 1 for s in gshape], [0] * len(gshape)]
+        outcome = []
+        for conv in (c, fresh):
+            try:
+                outcome.append(conv.select_indexes([native(built, conv, kind, cc) for cc in comps]))
+            except Exception as e:  # noqa: BLE001
+                outcome.append(type(e).__name__)
+        ctx.evaluated()
+        mine, ref = outcome
+        if isinstance(mine, str) or isinstance(ref, str):
+            same = isinstance(mine, str) and isinstance(ref, str)
+        else:
+            same = list(mine.data_vars) == list(ref.data_vars) and mine.identical(ref)
+        if not same:
+            def show(o):
+                return o if isinstance(o, str) else result_str(o, 'index', labels=False)[:300]
+            ctx.oracle_fail('selection-ignores-in-place-edit',
+                            {'recipe': recipe, 'kind': kind, 'indexes': comps},
+                            f'after the in-place edits {[e["op"] + ":" + (e.get("name") or e["var"]["name"]) for e in recipe["history"]["edits"]]} '
+                            f'select_indexes({kind}, {comps}) gives {show(mine)}; a convention made now for the same '
+                            f'dataset gives {show(ref)}')
+
+
+def examine_indexes(ctx, recipe, built, c, items) -> None:
+    rng = ctx.rng
     ds = built.ds
     gs = grids_spec(built)
     geom, dsvars = ds_args(built)
-    kind_objs = {getattr(k, 'value', k): k for k in c.grid_kinds}
     # ---- (a) select_indexes ----------------------------------------------------
     for kind, (gdims, gshape) in built.grids.items():
         size = int(np.prod(gshape))
@@ -182,6 +238,14 @@ def examine(ctx, recipe, items) -> None:
         except Exception:
             out = 'ERR'
         items.append((line, out, {'recipe': recipe, 'op': line}))
+
+
+def examine_points(ctx, recipe, built, c, items) -> None:
+    from emsarray.operations import point_extraction
+    rng = ctx.rng
+    ds = built.ds
+    gs = grids_spec(built)
+    geom, dsvars = ds_args(built)
     # ---- (b), (c) points ----------------------------------------------------------
     raw = built.polys
     vbits = S.geos_valid_bits(raw)
@@ -252,10 +316,14 @@ def examine(ctx, recipe, items) -> None:
                                 util.as_num(sp[nm].values), util.as_num(want.values), equal_nan=True):
                             ctx.oracle_fail('select-point-wrong-values', {**desc, 'point': [str(x), str(y)], 'var': nm},
                                             f'select_point gives {np.asarray(sp[nm].values).tolist()} (dims {sp[nm].dims}), cell {cc} stores {np.asarray(want.values).tolist()} (dims {want.dims})')
+        via_convention = rng.random() < 0.4          # the list of points through Convention.select_points
         for policy in ('error', 'drop'):
             line = f'extract {gs} {geom} {pdim} {policy} {hit_s} {dsvars}'
             try:
-                res = point_extraction.extract_points(ds, spts, point_dimension=pdim, missing_points=policy)
+                if via_convention:
+                    res = c.select_points(spts, point_dimension=pdim, missing_points=policy)
+                else:
+                    res = point_extraction.extract_points(ds, spts, point_dimension=pdim, missing_points=policy)
                 out = result_str(res, pdim)
             except point_extraction.NonIntersectingPoints as e:
                 res = e
@@ -324,8 +392,12 @@ def make_recipe(ctx, k):
     recipe = G.random_recipe(rng, conv, ctx.tier, vary=True, **kw)
     if rng.random() < 0.25:
         recipe['vary'] = {'chunk': rng.choice([1, 2])}     # lazily evaluated (dask-backed) data
-    return G.attach_vars(rng, recipe, n_vars=3, max_extra=2, with_nan=True,
-                         dtypes=('f8', 'f8', 'f4', 'i4', 'i8', 'u4', 'i4fill', 'i4missing', 'M8', 'm8'))
+    recipe = G.attach_vars(rng, recipe, n_vars=3, max_extra=2, with_nan=True,
+                           dtypes=('f8', 'f8', 'f4', 'i4', 'i8', 'u4', 'i4fill', 'i4missing', 'M8', 'm8'))
+    if rng.random() < 0.4:
+        # a history of calls on the one dataset object: select, edit the dataset in place, select again
+        recipe['history'] = H.random_history(rng, recipe)
+    return recipe
 
 
 def run(ctx) -> None:
@@ -343,10 +415,19 @@ def run_one(ctx, inp):
     out = {}
     if inp.get('op') and ctx.driver:
         out['model'] = ctx.model([inp['op']])[0]
-    items: list = []
-    sub = type(ctx)(ctx.prop, ctx.tier, ctx.seed)
-    sub.known = []
-    # re-run the whole dataset to regenerate impl outputs for the same op line
+    if inp.get('recipe'):
+        # the whole sequence of calls of the check on this dataset (its history included), a few request streams
+        found: dict = {}
+        for k in range(4):
+            sub = type(ctx)(ctx.prop, ctx.tier, ctx.seed + k)
+            sub.known = []
+            items: list = []
+            sub.guarded(lambda: examine(sub, inp['recipe'], items), {'recipe': inp['recipe']})
+            for f in sub.oracle_failures:
+                found.setdefault(f['signature'], f['message'][:300])
+            for d in sub.disagreements:
+                found.setdefault('harness-case', d['impl'][:300])
+        out['oracle on the current code'] = found or 'no failure'
     return out
 
 
